@@ -501,6 +501,8 @@ func (b *bigRun) do(m string) {
 			item += "!"
 		}
 		b.outs = append(b.outs, item)
+	case 'Z':
+		b.zipBig(f)
 	default:
 		b.bad = true
 	}
@@ -763,7 +765,10 @@ func genCloneBig(g *tr.G, n, β int, pat byte, cmp string) {
 	lo := r.Range(-n, 5)
 	step := 2
 	b.op('A', a, ks{pat: pat, lo: lo, step: step, n: n, rep: 1, take: n, seed: r.Intn(1 << 30)})
+	b.After(a, probeSeq(r, lo, step, n, 3), 1) // a range query BEFORE the Clone: what it leaves in the Tree is in both
 	c := b.Clone(a)
+	b.Zip(a, c, probeSeq(r, lo, step, n, 5), r.Range(2, 9)) // range queries on original and clone alive together
+	b.Zip(a, a, probeSeq(r, lo, step, n, 3), r.Range(2, 9)) // and two on one tree
 	x, y := a, c
 	if r.Bool() {
 		x, y = c, a
@@ -775,6 +780,8 @@ func genCloneBig(g *tr.G, n, β int, pat byte, cmp string) {
 	b.op('D', x, ks{pat: tr.Pick(r, []byte{'a', 'd', 'z', 'r'}), lo: lo, step: step, n: n, rep: 1, take: n - n/8, seed: r.Intn(1 << 30)})
 	b.op('Q', y, seqOf('a', lo, 1, min(step*n, 300)))
 	b.op('Q', x, seqOf('a', lo, 1, min(step*n, 300)))
+	b.Zip(x, y, probeSeq(r, lo, step, n, 6), r.Range(1, 20))
+	b.Zip(y, x, seqOf('a', lo-1, step*n/4+1, 5), min(n, 48))
 	if r.Chance(1, 3) {
 		b.Clear(x)
 		b.op('A', x, seqOf('d', lo, 1, 9))
